@@ -159,6 +159,21 @@ def rule_r2(ctx) -> List[R.Inst]:
             insts.append(R.viol(rid, "mark=append", file, m[1].lineno, "; ".join(probs), construct="; ".join(probs)))
         else:
             insts.append(R.ok(rid, "mark=append", file, m[1].lineno, idiom="view = ar[~grouped]; grouped[~grouped] |= mask; append(view[mask])"))
+    # (b2) the horizontal window applies whenever h_window is given — 0 is a valid window (same column only)
+    hw = [n for n in ast.walk(lp) if isinstance(n, ast.If) and any(isinstance(x, ast.Call) and call_name(x) == "h_mask" for x in ast.walk(n))]
+    if len(hw) == 1:
+        t = hw[0].test
+        if isinstance(t, ast.Compare) and isinstance(t.ops[0], ast.IsNot) and isinstance(t.comparators[0], ast.Constant) and \
+                t.comparators[0].value is None:
+            insts.append(R.ok(rid, "h-window-guard", file, t.lineno, idiom="if h_window is not None"))
+        elif isinstance(t, ast.Name) or (isinstance(t, ast.UnaryOp) and isinstance(t.op, ast.Not)):
+            insts.append(R.viol(rid, "h-window-guard", file, t.lineno,
+                                f"the horizontal window is applied only when '{unparse(t)}' is truthy: h_window = 0 (same column only) is "
+                                f"treated like None and every column is grouped", construct=unparse(t)))
+        else:
+            insts.append(R.undec(rid, "h-window-guard", file, t.lineno, f"guard '{unparse(t)}' not recognised"))
+    else:
+        insts.append(R.undec(rid, "h-window-guard", file, lp.lineno, "guarded application of h_mask not found"))
     # (c) window masks: [offset, offset + v_window] on offsets, |column - col| <= h_window; first occurrence per column for jacks
     vm = M.fn(PATTERN + ".v_mask")
     st = local_defs(vm.node, "start")
@@ -407,7 +422,7 @@ def rule_r5(ctx) -> List[R.Inst]:
 
 SPECS = [
     RuleSpec("C20.R1", rule_r1, 3, "A5", "Pattern.df is always offset-sorted with a positional index; positional unpack and record fields agree"),
-    RuleSpec("C20.R2", rule_r2, 5, "A8", "skip grouped notes; the mask that marks is the mask that is appended; window shapes"),
+    RuleSpec("C20.R2", rule_r2, 6, "A8", "skip grouped notes; the mask that marks is the mask that is appended; window shapes"),
     RuleSpec("C20.R3", rule_r3, 5, "A7", "chunks are consecutive groups of exactly `size`; full cartesian product; filters on their own fields"),
     RuleSpec("C20.R5", rule_r5, 5, "A7", "REPEAT option: shift range computed per base combo"),
     RuleSpec("C20.R4", rule_r4, 7, "A7", "chord filter tests row membership; exclude = negation; option flags distinct bits"),
